@@ -57,6 +57,10 @@ def gen(args):
         k = int(rng.integers(1, kmax + 1))
         if a == 0 and rng.random() < 0.6:
             k = int(rng.integers(min(p + 1, kmax), kmax + 1))     # more components than independent targets: zero-weight components retained
+        if xpert is not None:
+            # the weak direction's own eigenvalue (about 1e-12, above the estimator's guard) is never among the retained ones:
+            # a component at the noise floor is amplified legitimately and differently by the approximate solvers
+            k = min(k, m - 1)
         route = ["default", "ridge", "lr", "ridgeS"][int(rng.integers(4))]
         fits, groups = [], []
         # spectrum of the full problem (precondition "retained spectrum separated" is evaluated by the spec on it)
